@@ -15,9 +15,11 @@
 //	case             base with the key at the end of <path> re-spelled in another letter case (must decode like base)
 //	ph:<literal>     base with the scalar at <path> replaced by a placeholder resolving to the text of <literal>
 //	phe              base with the scalar at <path> replaced by an unresolvable placeholder
+//	req:<hexkey>     base with the key removed from the map at <path> (an error when the field is required and its default is empty)
+//	bare             base with the component at <path> reduced to its type key (an error when the registered defaults violate a validate tag)
 //	free             anything else (correspondence only)
 //
-// Observation: `ok <dump>` | `err` | `panic`.
+// Observation: `ok <dump>[ f=<factory call bits>]` | `err` | `panic` | `hang` (no answer within 3 s).
 package main
 
 import (
@@ -280,7 +282,21 @@ func touchFiles(tree *s.V) {
 	}
 }
 
-func decodeFull(tree *s.V) (res string) {
+// bounded: a constructor fed with values that skipped validation may spin (e.g. a zero step)
+func bounded(f func() string) string {
+	ch := make(chan string, 1)
+	go func() { ch <- f() }()
+	select {
+	case r := <-ch:
+		return r
+	case <-time.After(3 * time.Second):
+		return "hang"
+	}
+}
+
+func decodeFull(tree *s.V) string { return bounded(func() string { return decodeFull0(tree) }) }
+
+func decodeFull0(tree *s.V) (res string) {
 	defer func() {
 		if r := recover(); r != nil {
 			res = "panic"
@@ -320,7 +336,11 @@ func factoryBit(f func() error) (res string) {
 	return "1"
 }
 
-func decodeComp(reg *s.Reg, iface, name string, tree *s.V) (res string) {
+func decodeComp(reg *s.Reg, iface, name string, tree *s.V) string {
+	return bounded(func() string { return decodeComp0(reg, iface, name, tree) })
+}
+
+func decodeComp0(reg *s.Reg, iface, name string, tree *s.V) (res string) {
 	defer func() {
 		if r := recover(); r != nil {
 			res = "panic"
@@ -706,6 +726,24 @@ func mutate(e emitter, reg *s.Reg, rootNode *s.Node, base *s.V, prefix s.Path, l
 				}
 			}
 		}
+		// a component written with nothing but its type: every option keeps the registered default,
+		// and the defaults still have to pass the component's validate tags
+		if st.IsMapNode && st.Node.Kind == "plugin" && st.Conf != nil && len(node.M) > 1 {
+			if t := node.Get("type"); t != nil && t.K == 's' {
+				b2 := base.ReplaceAt(st.Path, s.Map(s.KV{"type", t}))
+				// constructors are not modelled: keep the case when the defaults alone are already refused by
+				// DecodeAndValidate, or when the whole thing constructs
+				defaultsRefused := decodeComp(reg, st.Node.Iface, t.S, s.Map()) == "err"
+				constructs := true
+				if e.head[0] == "full" {
+					touchFiles(b2)
+					constructs = strings.HasPrefix(decodeFull(b2), "ok")
+				}
+				if defaultsRefused || constructs {
+					e.emit("bare", st.Path, none, b2)
+				}
+			}
+		}
 		if st.Free && st.Node.Kind == "any" {
 			continue
 		}
@@ -745,6 +783,9 @@ func mutate(e emitter, reg *s.Reg, rootNode *s.Node, base *s.V, prefix s.Path, l
 					ce = caseEnv{props: map[string]string{propFile + "#" + propKey: text}}
 					ph = "${property:" + propFile + "#" + propKey + "}"
 				}
+				if !literalConstructs(e, base.ReplaceAt(st.Path, val)) {
+					continue
+				}
 				e.emit("ph:"+val.Token(), st.Path, ce, base.ReplaceAt(st.Path, s.Str(ph)))
 			}
 			if n.Scalar == "string" && node.K == 's' && len(node.S) >= 3 {
@@ -761,6 +802,23 @@ func mutate(e emitter, reg *s.Reg, rootNode *s.Node, base *s.V, prefix s.Path, l
 			e.emit("req:"+vh.HexS(st.Path[len(st.Path)-1].Key), parent, none, base.RemoveKey(parent, st.Path[len(st.Path)-1].Key))
 		}
 	}
+}
+
+// constructors are not modelled: a placeholder case is kept only when the configuration with the literal
+// value in its place is accepted by the real decoder and yields its products (e.g. an http2 gun refuses ssl: false)
+func literalConstructs(e emitter, lit *s.V) bool {
+	if e.head[0] != "full" {
+		return true
+	}
+	touchFiles(lit)
+	r := decodeFull(lit)
+	if !strings.HasPrefix(r, "ok") {
+		return false
+	}
+	if i := strings.LastIndex(r, " f="); i >= 0 && strings.ContainsAny(r[i+3:], "0p") {
+		return false
+	}
+	return true
 }
 
 func hasTagH(validate, name string) (string, bool) {
@@ -904,6 +962,30 @@ func gen(r *vh.Rand, tier string) []string {
 				em.emit("unk:"+vh.HexS(unkKey), s.Path{{Key: "pools"}, {Idx: 1, IsIdx: true}}, caseEnv{}, two.InsertKey(s.Path{{Key: "pools"}, {Idx: 1, IsIdx: true}}, unkKey, s.Int(1)))
 			} else {
 				mutate(em, reg, root, base, at, !thorough)
+			}
+		}
+	}
+	// thorough: all pairs of component kinds in two different pool slots, with an unknown key in each
+	if thorough {
+		for i, sa := range slots {
+			for _, sb := range slots[i+1:] {
+				for _, ea := range reg.ByIface[sa.iface] {
+					for _, eb := range reg.ByIface[sb.iface] {
+						pa := s.Path{{Key: "pools"}, {Idx: 0, IsIdx: true}, {Key: sa.key}}
+						pb := s.Path{{Key: "pools"}, {Idx: 0, IsIdx: true}, {Key: sb.key}}
+						b0 := fullBase(reg, map[string]string{"/pools/0/" + sa.key: ea.Name, "/pools/0/" + sb.key: eb.Name}, false)
+						base := calibrate(b0, pa, okFull)
+						if base == nil {
+							base = calibrate(b0, pb, okFull)
+						}
+						if base == nil {
+							continue
+						}
+						em.emit("base", nil, caseEnv{}, base)
+						em.emit("unk:"+vh.HexS(unkKey), pa, caseEnv{}, base.InsertKey(pa, unkKey, s.Int(1)))
+						em.emit("unk:"+vh.HexS(unkKey), pb, caseEnv{}, base.InsertKey(pb, unkKey, s.Int(1)))
+					}
+				}
 			}
 		}
 	}
